@@ -104,6 +104,15 @@ func genOp(r *rng.R) rsOp {
 			return out
 		}
 		o.Fids, o.Sts, o.Rss = pick([]int{0, 1, 2}), pick(stVals), pick([]int{1, 2, 3, 5, 7})
+		if len(o.Fids) > 1 {
+			// foreign ID 2 contains the delimiter of multi-value filters; a multi-value filter that names it is outside what
+			// MakeFilter can express (observed, DESIGN §0.3) - it is used in single-value filters, Latest and Store only
+			for i, f := range o.Fids {
+				if f == 2 {
+					o.Fids[i] = 1
+				}
+			}
+		}
 	case k < 84:
 		o.Kind = "outbox"
 		o.Lim = rng.Pick(r, []int{-1, 0, 1, 2, 3, 100})
@@ -137,12 +146,28 @@ func recOut(r *workflow.Record) string {
 	if r == nil {
 		return "nf"
 	}
-	atoi := func(s string) int { n, _ := strconv.Atoi(s[1:]); return n }
+	atoi := func(s string) int {
+		s = s[1:]
+		if i := strings.IndexByte(s, ','); i >= 0 {
+			s = s[:i]
+		}
+		n, _ := strconv.Atoi(s)
+		return n
+	}
 	o := -1
 	if len(r.Object) == 1 {
 		o = int(r.Object[0])
 	}
 	return fmt.Sprintf("%d:%d:%d:%d:%d:%d:%d", atoi(r.WorkflowName), atoi(r.ForeignID), atoi(r.RunID), int(r.RunState), r.Status, o, r.Meta.Version)
+}
+
+// rsFid: the foreign IDs of the universe. ID 2 contains a comma and its pieces are the IDs 2' = "f2" and 0: a store or
+// filter that takes a foreign ID apart answers for the wrong runs.
+func rsFid(i int) string {
+	if i == 2 {
+		return "f2,f0"
+	}
+	return "f" + strconv.Itoa(i)
 }
 
 func (x *rsRun) learnOutbox(ctx context.Context) {
@@ -162,7 +187,7 @@ func (x *rsRun) apply(ctx context.Context, o rsOp) (string, string, error) {
 	switch o.Kind {
 	case "store":
 		x.ver[o.Rid]++
-		rec := &workflow.Record{WorkflowName: "w" + strconv.Itoa(o.Wf), ForeignID: "f" + strconv.Itoa(o.Fid), RunID: "r" + strconv.Itoa(o.Rid),
+		rec := &workflow.Record{WorkflowName: "w" + strconv.Itoa(o.Wf), ForeignID: rsFid(o.Fid), RunID: "r" + strconv.Itoa(o.Rid),
 			RunState: workflow.RunState(o.Rs), Status: o.St, Object: []byte{byte(o.O)}, Meta: workflow.Meta{Version: uint(x.ver[o.Rid])}}
 		before := map[string]bool{}
 		for id := range x.outSeen {
@@ -204,7 +229,7 @@ func (x *rsRun) apply(ctx context.Context, o rsOp) (string, string, error) {
 		m, e2 := d.Ask(fmt.Sprintf("rs lookup %d", o.Rid))
 		return recOut(r), m, e2
 	case "latest":
-		r, err := x.store.Latest(ctx, "w"+strconv.Itoa(o.Wf), "f"+strconv.Itoa(o.Fid))
+		r, err := x.store.Latest(ctx, "w"+strconv.Itoa(o.Wf), rsFid(o.Fid))
 		if err != nil {
 			r = nil
 		} else {
@@ -214,13 +239,6 @@ func (x *rsRun) apply(ctx context.Context, o rsOp) (string, string, error) {
 		return recOut(r), m, e2
 	case "list":
 		var fs []workflow.RecordFilter
-		toS := func(xs []int, p string) []string {
-			var out []string
-			for _, v := range xs {
-				out = append(out, p+strconv.Itoa(v))
-			}
-			return out
-		}
 		ml := func(xs []int) string {
 			if xs == nil {
 				return "-"
@@ -232,7 +250,11 @@ func (x *rsRun) apply(ctx context.Context, o rsOp) (string, string, error) {
 			return strings.Join(out, ",")
 		}
 		if o.Fids != nil {
-			fs = append(fs, workflow.FilterByForeignID(toS(o.Fids, "f")...))
+			var fids []string
+			for _, f := range o.Fids {
+				fids = append(fids, rsFid(f))
+			}
+			fs = append(fs, workflow.FilterByForeignID(fids...))
 		}
 		if o.Sts != nil {
 			fs = append(fs, workflow.FilterByStatus(o.Sts...))
